@@ -521,7 +521,7 @@ fn main() {
     let ctx = Ctx::from_env("C08", "model_checking");
     let thorough = ctx.tier == mcx::Tier::Thorough;
     // Depth counts the Cfg event: quick D=6 operations, thorough D=8 (the design asked for 4 / 6).
-    let (depth, stride) = if thorough { (9usize, 400u64) } else { (7, 0) };
+    let (depth, stride) = if thorough { (9usize, 2000u64) } else { (7, 0) };
     // Branch-head tables (d1, d2, d3; 0 = c1, 1 = c2, 2 = no default-branch ref). quick: four tables in
     // which every delegate takes every value; thorough and --replay: all 27.
     let all: Vec<[u8; 3]> = (0..27u8).map(|i| [i / 9, (i / 3) % 3, i % 3]).collect();
